@@ -220,3 +220,39 @@ def witness_may(g, effect, target, fact, limit=100000):
         path.append(n)
         n = prev.get(n.key)
     return path
+
+
+def construction_sites(facts, adt_npath, depth=0):
+    """Construction sites of an ADT as (body, block index, {field: expression in that body}, location).
+    A private constructor function that is new relative to the pinned tree is looked through: its call sites are the
+    sites, with the constructor's parameters replaced by the arguments."""
+    import facts as F
+    out = []
+    for (b, bi, si, st) in F.aggregates_of(facts, adt_npath):
+        r = ir.Resolver(b)
+        fields = {k: r.operand(v, (bi, si)) for k, v in zip(st["rv"]["fields"], st["rv"]["ops"])}
+        loc = "%s:%d" % (st["sp"]["f"], st["sp"]["l"])
+        if depth < 3 and facts.is_new_helper(b.npath):
+            for (cb, cbi, t, name) in F.calls_to(facts, lambda n, _p=b.npath: n == _p):
+                cr = ir.Resolver(cb)
+                args = [cr.operand(a, (cbi, -1)) for a in t["args"]]
+
+                def subst(e):
+                    if e[0] == 'param' and 1 <= e[1] <= len(args):
+                        return args[e[1] - 1]
+                    if e[0] in ('field', 'variant', 'ref', 'deref', 'discr'):
+                        return (e[0], subst(e[1])) + tuple(e[2:])
+                    if e[0] == 'call':
+                        return (e[0], e[1], tuple(subst(a) for a in e[2]), e[3])
+                    if e[0] == 'cast':
+                        return (e[0], e[1], subst(e[2]), e[3])
+                    if e[0] == 'agg':
+                        return (e[0], e[1], e[2], tuple((n_, subst(x)) for n_, x in e[3]))
+                    if e[0] == 'bin':
+                        return (e[0], e[1], subst(e[2]), subst(e[3]))
+                    return e
+                cloc = "%s:%d" % (t["sp"]["f"], t["sp"]["l"]) if t.get("sp") else loc
+                out.append((cb, cbi, {k: ir.simplify(subst(v)) for k, v in fields.items()}, cloc))
+            continue
+        out.append((b, bi, fields, loc))
+    return out
